@@ -16,25 +16,28 @@ VARIABLE l
 KeyIdx(tr) == [c \in {<<tr[i][1], tr[i][2]>> : i \in DOMAIN tr} |-> (CHOOSE i \in DOMAIN tr : <<tr[i][1], tr[i][2]>> = c)]
 MapOf(tr) == LET idx == KeyIdx(tr) IN [c \in DOMAIN idx |-> tr[idx[c]][3]]
 NoDupKeys(tr) == Cardinality({<<tr[i][1], tr[i][2]>> : i \in DOMAIN tr}) = Len(tr)
+\* contents are sets of UNORDERED combos: a key is read as the pair of its two cards, whichever order the library stored them in
+\* (on a correct library every stored key is already the canonical pair and Norm changes nothing; C14 checks that separately)
+Norm(tr) == [i \in DOMAIN tr |-> <<IF tr[i][1] <= tr[i][2] THEN tr[i][1] ELSE tr[i][2], IF tr[i][1] <= tr[i][2] THEN tr[i][2] ELSE tr[i][1], tr[i][3]>>]
 TokSeq(e) == [i \in DOMAIN e.toks |-> [tok |-> ParseBody(e.toks[i].body), w |-> e.toks[i].w]]
 
 \* C06: the text parses back to the same combos with bit-identical weights
-AllowedC06(e) == e.op = "fmt" => (e.fmtres = "ok" /\ e.reparse = "ok" /\ NoDupKeys(e.reparsed) /\ MapOf(e.reparsed) = MapOf(e.range))
+AllowedC06(e) == e.op = "fmt" => (e.fmtres = "ok" /\ e.reparse = "ok" /\ NoDupKeys(Norm(e.reparsed)) /\ NoDupKeys(Norm(e.range)) /\ MapOf(Norm(e.reparsed)) = MapOf(Norm(e.range)))
 \* C12: rank_pairs() = the complete rank pairs with their weight; orphan_card_pairs() = the rest; together they cover the range once
 AllowedC12(e) == e.op = "fmt" =>
-  LET m == MapOf(e.range)  rps == {e.rps[i] : i \in DOMAIN e.rps} IN
-  /\ e.split = "ok"
+  LET m == MapOf(Norm(e.range))  rps == {e.rps[i] : i \in DOMAIN e.rps} IN
+  /\ e.split = "ok" /\ NoDupKeys(Norm(e.range))
   /\ Len(e.rps) = Cardinality(rps)
   /\ {<<x[1], x[2], x[3], <<x[4]>>>> : x \in rps} = {<<rp.t, rp.h, rp.k, Cell(m, rp)>> : rp \in Complete(m)}
-  /\ NoDupKeys(e.orph) /\ MapOf(e.orph) = [c \in Orphans(m) |-> m[c]]
+  /\ NoDupKeys(Norm(e.orph)) /\ MapOf(Norm(e.orph)) = [c \in Orphans(m) |-> m[c]]
 \* C17: canonical text - one token per maximal run in the stated order, then the leftovers; equal ranges print identically
 AllowedC17(e) == e.op = "fmt" =>
-  LET m == MapOf(e.range) IN
-  /\ e.fmtres = "ok"
+  LET m == MapOf(Norm(e.range)) IN
+  /\ e.fmtres = "ok" /\ NoDupKeys(Norm(e.range))
   /\ TextOK(m, TokSeq(e))
   /\ (e.ops # <<>> => m = RangeOf([i \in DOMAIN e.ops |-> [tok |-> ParseBody(e.ops[i].b), w |-> e.ops[i].w]], Empty))
   /\ (Rec[e.same_as].range = e.range => Rec[e.same_as].text = e.text)
-Drift17(e, i) == (e.op = "fmt" /\ e.fmtres = "ok" /\ ~SpellingOK(MapOf(e.range), TokSeq(e))) => PrintT(<<"DRIFT", i>>)
+Drift17(e, i) == (e.op = "fmt" /\ e.fmtres = "ok" /\ ~SpellingOK(MapOf(Norm(e.range)), TokSeq(e))) => PrintT(<<"DRIFT", i>>)
 
 K == 64
 Init == l = <<"root">>
